@@ -107,6 +107,16 @@ def LangCand (rules : List CoreRule) (ctxAt : Nat → Regex) (iter : List Nat) (
       k = iter.length ∧ firstLang ctxAt [] (matchingAccs rules (iter.map Sym.ch ++ [Sym.eoi])) = some a
     else firstLang ctxAt (iter.drop k) (matchingAccs rules ((iter.take k).map Sym.ch)) = some a
 
+/-- the run-time configuration of a compiled definition -/
+def Compiled.config {σ τ ε : Type} (c : Compiled) (actions : Nat → Action σ τ ε) (width : Nat → Nat)
+    (input : Option (List Nat)) : Config σ τ ε :=
+  { dfa := c.dfa, ctxs := c.ctxs, entries := c.entries, actions := actions, width := width, input := input }
+
+/-- the entry state of a rule set in the final machine: the named entry, or state 0 for a definition
+without rule sets -/
+def IsEntryOf (items : LexerDef) (c : Compiled) (name : String) (e : Nat) : Prop :=
+  if hasRuleSets items then (name, e) ∈ c.entries else e = 0
+
 /-- no transition of any kind leads to NFA state 0 -/
 def NoIncoming0 (n : NFA) : Prop := ∀ s, s < n.length →
   0 ∉ (n.st s).eps ∧ 0 ∉ (n.st s).any ∧ 0 ∉ (n.st s).eoi ∧
